@@ -187,12 +187,12 @@ func onceScenario(r *rand.Rand, failP float64) (Scenario, []FuncSpec) {
 	return Scenario{}, nil
 }
 
-func runC11(c *CaseCtx) CaseResult {
+func runC11(c *CaseCtx) (res CaseResult) {
 	r := caseRand(c.Seed, "C11", c.Idx)
 	if c.Idx%8 >= 5 {
 		return runC11Concurrent(c, r)
 	}
-	var res CaseResult
+
 	s, extra := onceScenario(r, 0.2)
 	if len(s.Convs) == 0 {
 		res.Skip = "generator"
@@ -348,8 +348,7 @@ var onceModel = porcupine.Model{
 	},
 }
 
-func runC11Concurrent(c *CaseCtx, r *rand.Rand) CaseResult {
-	var res CaseResult
+func runC11Concurrent(c *CaseCtx, r *rand.Rand) (res CaseResult) {
 	// one run-once converter O at depth d of a single-input chain:
 	// input T[p0] -> c0 -> ... -> target; O is one of the chain converters or a provider
 	depth := 1 + r.Intn(4)
@@ -574,8 +573,7 @@ func init() {
 	})
 }
 
-func runC12(c *CaseCtx) CaseResult {
-	var res CaseResult
+func runC12(c *CaseCtx) (res CaseResult) {
 	r := caseRand(c.Seed, "C12", c.Idx)
 	s, fam := stableScenario(r)
 	noBuilt := func(f *FuncSpec) {
